@@ -44,6 +44,16 @@ class Miniscript(DescriptorBase):
         ]
         return type(self)(*args, taproot=self.taproot)
 
+    def with_key_flag(self, taproot):
+        """This miniscript if all its keys have this taproot flag, otherwise a copy over re-flagged key copies"""
+        if all([k.taproot == taproot for k in self.keys]):
+            return self
+        args = [
+            arg.with_key_flag(taproot) if hasattr(arg, "with_key_flag") else arg
+            for arg in self.args
+        ]
+        return type(self)(*args, taproot=self.taproot)
+
     @property
     def properties(self):
         return self.PROPS
